@@ -266,6 +266,8 @@ class Explorer:
         self.cache = {}
 
     def run(self, qualname, setup, summaries=None, key=None, no_inline=(), hooks=None, models=None):
+        from .rules import sysz as _sysz
+        _sysz._PROG["prog"] = self.prog
         ck = (qualname, key)
         if key is not None and ck in self.cache:
             return self.cache[ck]
